@@ -686,6 +686,24 @@ func (r *Reconciler) applyRollback(ctx context.Context, transaction *configapi.T
 				}
 				return controller.Result{}, true, nil
 			}
+			// The apply of the change was scheduled (the applied target index already names this transaction)
+			// but a failure kept the transaction status from following. Nothing was sent to the target yet:
+			// abort the apply phase here as well, or neither the change nor its rollback can ever be applied.
+			if configuration.Applied.Ordinal == transaction.Status.Change.Ordinal-1 &&
+				configuration.Applied.Target == transaction.ID.Index {
+				transaction.Status.Change.Apply.State = configapi.TransactionPhaseStatus_ABORTED
+				transaction.Status.Change.Apply.End = now()
+				if err := r.updateTransactionStatus(ctx, transaction); err != nil {
+					return controller.Result{}, false, err
+				}
+
+				configuration.Applied.Index = transaction.ID.Index
+				configuration.Applied.Ordinal = transaction.Status.Change.Ordinal
+				if err := r.updateConfigurationStatus(ctx, configuration); err != nil {
+					return controller.Result{}, false, err
+				}
+				return controller.Result{}, true, nil
+			}
 			return controller.Result{}, false, nil
 		case configapi.TransactionPhaseStatus_IN_PROGRESS:
 			// If the change apply is IN_PROGRESS, fail the apply phase and update the applied
